@@ -433,7 +433,9 @@ def work(task):
            "pruned_by_state_cache": st.pruned,
            "outcomes": {cfg_str(cfg) + "/" + mode: dict(st.outcomes)},
            "samples": [{"cfg": cfg, "mode": mode, "timeouts": K, "executions": st.executions, "states": st.states,
-                        "max_schedule_len": st.max_points}]}
+                        "max_schedule_len": st.max_points,
+                        "one_complete_schedule": ({"choices": st.sample[0], "steps": st.sample[1], "outcome": st.sample[2]}
+                                                  if st.sample else None)}]}
     if st.cap_hit:
         cov["caps_hit"] = [cfg_str(cfg) + ": " + st.cap_hit]
         cov["exhaustive"] = False
@@ -592,6 +594,9 @@ def run(prop, tier):
                 for i in range(n):
                     again.append(tuple(base) + (stack[i::n],))
         tasks = again
+    rep.cov["exhaustive_scope"] = ("every sync-level and line-level configuration listed was explored to completion within its "
+                                   "stated bound (timeouts K, preemption bound); the 'directed' starvation runs are single "
+                                   "schedules on a long stream and are not exhaustive")
     rep.assumptions += [
         "threads interact only through the interposed Queue/start/join operations; the line-level pass (every line of "
         "workers.py a scheduling point, <=1 or 2 preemptions) is the check on that assumption",
